@@ -533,6 +533,9 @@ func TestInherit(t *testing.T)   { fw.Run(t, inheritProp) }
 type DevCase struct {
 	Mods []*sg.Mod `json:"mods"`
 	Devs []DevEdit `json:"devs"`
+	// InSub: the deviation statements are written in a submodule of the deviating module, which alone imports the
+	// deviated module
+	InSub bool `json:"in_sub,omitempty"`
 }
 
 // DevEdit is one deviation: target (index into the node listing of Mods[0]) and what to do.
@@ -744,12 +747,28 @@ func applyEdit(r sg.NodeRef, e DevEdit) (stmt string, remove bool) {
 	panic("unknown edit " + e.Kind + ":" + e.Prop)
 }
 
+// devRefs lists the possible targets: the nodes of the first module and of its submodule (their paths carry the
+// module's prefix all the same); home gives the index of the (sub)module whose text holds the node.
+func devRefs(mods []*sg.Mod) (refs []sg.NodeRef, home []int) {
+	for i, m := range mods {
+		if i == 0 || (i == 1 && m.BelongsTo == mods[0].Name) {
+			for _, r := range sg.ListNodes(m) {
+				refs = append(refs, r)
+				home = append(home, i)
+			}
+		}
+	}
+	return
+}
+
 func genDev(t *rapid.T) DevCase {
 	g := &sg.G{T: t, Cfg: sg.GenCfg{MaxMods: 2, ConfigFalse: true, NoFeatures: true, NoAugments: true}}
 	c := DevCase{Mods: g.GenSet()}
 	uniqueNodes = map[*sg.Node]bool{}
-	noteUniques(c.Mods[0].Nodes)
-	refs := sg.ListNodes(c.Mods[0])
+	refs, home := devRefs(c.Mods)
+	for _, h := range home {
+		noteUniques(c.Mods[h].Nodes)
+	}
 	// some nodes carry several must statements, so that a delete can name one that is not the first
 	for _, r := range refs {
 		if r.Node.Kind != "choice" && r.Node.Kind != "case" && r.Node.Kind != "uses" && len(r.Node.Musts) > 0 && g.Chance(1, 3, "moremusts") {
@@ -758,6 +777,7 @@ func genDev(t *rapid.T) DevCase {
 			}
 		}
 	}
+	c.InSub = g.Chance(1, 4, "devinsub")
 	nd := 1 + g.Pick(3, "ndev")
 	used := map[int]bool{}
 	for i := 0; i < nd && len(refs) > 0; i++ {
@@ -790,7 +810,7 @@ func genDev(t *rapid.T) DevCase {
 		}
 		par := refs[ti]
 		par.Path = par.Path[:len(par.Path)-1]
-		opts := options(refs[ti], configTrueAt(c.Mods[0], refs[ti]), configTrueAt(c.Mods[0], par))
+		opts := options(refs[ti], configTrueAt(c.Mods[home[ti]], refs[ti]), configTrueAt(c.Mods[home[ti]], par))
 		if len(opts) == 0 {
 			continue
 		}
@@ -876,9 +896,11 @@ func checkDev(c DevCase) fw.Outcome {
 	}
 	edited := sg.Clone(c.Mods)
 	uniqueNodes = map[*sg.Node]bool{}
-	noteUniques(edited[0].Nodes)
-	erefs := sg.ListNodes(edited[0])
-	orefs := sg.ListNodes(c.Mods[0])
+	erefs, ehome := devRefs(edited)
+	for _, h := range ehome {
+		noteUniques(edited[h].Nodes)
+	}
+	orefs, _ := devRefs(c.Mods)
 	dev := &sg.Mod{Name: "mdev", Prefix: "mdev", Imports: []sg.Import{{Mod: c.Mods[0].Name, Prefix: c.Mods[0].Prefix}}}
 	plainDev := sg.Clone(dev)
 	belowUses := false
@@ -895,7 +917,10 @@ func checkDev(c DevCase) fw.Outcome {
 		}
 		dev.Deviations = append(dev.Deviations, &sg.Deviation{Target: orefs[e.Target].AbsPath(c.Mods[0].Prefix), Deviates: []sg.Deviate{d}})
 		if remove {
-			removeNode(edited[0], erefs[e.Target])
+			removeNode(edited[ehome[e.Target]], erefs[e.Target])
+			if ehome[e.Target] != 0 {
+				out.Labels = append(out.Labels, "target-in-submodule")
+			}
 		}
 		if len(orefs[e.Target].Path) >= 3 {
 			belowUses = true
@@ -903,7 +928,18 @@ func checkDev(c DevCase) fw.Outcome {
 	}
 	out.NonTrivial = belowUses || len(c.Devs) >= 2
 	g := append(sg.Clone(c.Mods), dev)
+	if c.InSub {
+		out.Labels = append(out.Labels, "written-in-submodule")
+		dsub := &sg.Mod{Name: "mdev-sub", Prefix: "mdev", BelongsTo: "mdev", Imports: dev.Imports, Deviations: dev.Deviations}
+		dev.Imports, dev.Deviations, dev.Includes = nil, nil, []string{"mdev-sub"}
+		g = append(g, dsub)
+	}
 	i := append(edited, plainDev)
+	if c.InSub {
+		// the edited twin has the same (empty) submodule, so that the two module sets list the same members
+		plainDev.Includes = []string{"mdev-sub"}
+		i = append(i, &sg.Mod{Name: "mdev-sub", Prefix: "mdev", BelongsTo: "mdev"})
+	}
 	if compare(&out, "deviation", g, i, sgc.Opts{Features: sgc.AllFeatures{}}, sgc.Opts{Features: sgc.AllFeatures{}}, canon.Opts{NoDeviations: true, MaskXPathNS: true}) {
 		res := sgc.Compile(g, sgc.Opts{Features: sgc.AllFeatures{}})
 		got := res.MS.Modules()[c.Mods[0].Name].Deviations()
